@@ -249,6 +249,8 @@ def run(ctx):
     base = st.one_of(gen_cfg.model_and_spec(collide=True),
                      gen_cfg.model_and_spec(collide=True, force=['mirror_ns', 'many_ports',
                                                                  'partial_spelling']),
+                     gen_cfg.model_and_spec(collide=True, force=['prefix_ns', 'deep_ns']),
+                     gen_cfg.model_and_spec(collide=True, force=['prefix_ns', 'many_ports']),
                      gen_cfg.model_and_spec(collide=True, force=['partial_spelling', 'deep_ns']),
                      gen_cfg.model_and_spec(collide=True, want_mc=True,
                                             force=['partial_spelling']),
